@@ -274,6 +274,7 @@ type replay struct {
 	Hist    []Op   `json:"history,omitempty"`
 	Scen    int    `json:"scenario,omitempty"`
 	Choices []int  `json:"choices,omitempty"`
+	Stall   bool   `json:"stall,omitempty"` // explored with persistent delays (qsched.Demote)
 }
 
 type histResult struct {
@@ -368,7 +369,7 @@ var concScens = []concScen{
 	{"failing-copy-and-writer-after-close", [][2]string{{"G3", "b"}, {"MISSING", "c"}}, 0, "closed:G1:a"},
 }
 
-func runConc(t *testing.T, c *explore.Ctx, sc concScen, scratch string, trace bool) explore.Result {
+func runConc(t *testing.T, c *explore.Ctx, sc concScen, scratch string, trace bool, stall bool) explore.Result {
 	dir, _ := os.MkdirTemp(scratch, "c")
 	defer os.RemoveAll(dir)
 	var res explore.Result
@@ -445,7 +446,11 @@ func runConc(t *testing.T, c *explore.Ctx, sc concScen, scratch string, trace bo
 				closeOnce(n)
 			}
 		}
-		out := qsched.Run(c, qsched.Config{Mode: qsched.Delay, Horizon: 20000, Trace: trace, Branch: map[qsched.Kind]bool{qsched.KHTTP: true, qsched.KYield: true, qsched.KStart: true}}, threads, names)
+		mode := qsched.Delay
+		if stall {
+			mode = qsched.Demote
+		}
+		out := qsched.Run(c, qsched.Config{Mode: mode, Horizon: 20000, Trace: trace, Branch: map[qsched.Kind]bool{qsched.KHTTP: true, qsched.KYield: true, qsched.KStart: true}}, threads, names)
 		sched = nil
 		w.net.OnArrive = nil
 		if out.Deadlock {
@@ -498,7 +503,7 @@ func TestVerifC08(t *testing.T) {
 	rec := ev.New()
 	defer rec.Flush(t)
 	rec.Rule("part 1: every sequence of length 1..3 (thorough 1..4) over {copy of G1/G3/G4/G15/G11/G10 into tag a or b, copy with referrers of G13, sparse copy (one platform) of G3, tag delete a/b, manifest delete, push / delete of a referrer of whatever tag a points to, a stray *.tmp file under blobs/, Close} followed by Close, on one layout through the real client, without state deduplication; around every Close an independent reachability walk from index.json decides: nothing reachable removed, nothing added, and either no file removed or exactly the unreachable files (temp files included) removed. " +
-		"part 2: two concurrent ImageCopy into one layout (disjoint, overlapping, identical, nested graphs) each followed by Close, plus 1-2 extra Close goroutines; every schedule with at most k departures from the default at request arrivals and operation boundaries (k=2 quick, 3 thorough); oracle: no file disappears while a copy is in progress, all copied tags complete afterwards. distinct_nontrivial = histories in which a collection actually removed files / distinct concurrent outcomes")
+		"part 2: two concurrent ImageCopy into one layout (disjoint, overlapping, identical, nested graphs) each followed by Close, plus 1-2 extra Close goroutines; every schedule with at most k departures from the default at request arrivals and operation boundaries (k=2 quick, 3 thorough), and every schedule with at most k-1 persistent delays (a goroutine stalled until all others have blocked or finished); oracle: no file disappears while a copy is in progress, all copied tags complete afterwards. distinct_nontrivial = histories in which a collection actually removed files / distinct concurrent outcomes")
 	rec.Assume("layout GC with the client's default setting (on); GC off is covered by a direct scheme-level sequence")
 	if rd := rec.ReplayData(); rd != nil {
 		var rp replay
@@ -508,7 +513,7 @@ func TestVerifC08(t *testing.T) {
 		}
 		if rp.Part == "conc" {
 			c := explore.NewCtx(rp.Choices)
-			r := runConc(t, c, concScens[rp.Scen], rec.Scratch, true)
+			r := runConc(t, c, concScens[rp.Scen], rec.Scratch, true, rp.Stall)
 			fmt.Printf("replay %s choices=%v\n%s\nverdict: %s %s\n", concScens[rp.Scen].Name, rp.Choices, strings.Join(c.Log(), "\n"), r.VKey, r.Violation)
 			rec.Eval(1)
 			if r.VKey != "" {
@@ -571,13 +576,30 @@ func TestVerifC08(t *testing.T) {
 	if rec.Thorough() {
 		bound = 3
 	}
-	for si, sc := range concScens {
+	type concItem struct {
+		si    int
+		stall bool
+	}
+	var items []concItem
+	for si := range concScens {
+		// departures from the default schedule, then persistent delays (a goroutine stalled while all
+		// others run on), one bound lower
+		items = append(items, concItem{si, false}, concItem{si, true})
+	}
+	for _, it := range items {
+		si, sc, stall := it.si, concScens[it.si], it.stall
+		bound := bound
+		tagS := ""
+		if stall {
+			bound--
+			tagS = " stalls"
+		}
 		// every shard explores its share of the level-1 subtrees of every scenario
 		if rec.Expired() {
 			rec.NotExhaustive("budget reached in concurrent scenarios")
 			break
 		}
-		run := func(c *explore.Ctx) explore.Result { return runConc(t, c, sc, rec.Scratch, false) }
+		run := func(c *explore.Ctx) explore.Result { return runConc(t, c, sc, rec.Scratch, false, stall) }
 		ex := &explore.Explorer{Bound: bound, Run: run, Stop: rec.Expired, DetCheckEvery: 199,
 			Mine: func(k int) bool { return k%rec.NShards == rec.ShardI }, Root: rec.ShardI == 0}
 		ex.OnExec = func(c *explore.Ctx, r explore.Result) {
@@ -592,9 +614,9 @@ func TestVerifC08(t *testing.T) {
 						return
 					}
 				}
-				rec.Violation(r.VKey+" conc "+sc.Name, r.Violation+"\nschedule: "+c.Describe(), replay{Part: "conc", Scen: si, Choices: explore.Trim(c.Choices())})
+				rec.Violation(r.VKey+" conc "+sc.Name+tagS, r.Violation+"\nschedule: "+c.Describe(), replay{Part: "conc", Scen: si, Choices: explore.Trim(c.Choices()), Stall: stall})
 			}
-			rec.Distinct(sc.Name + "#" + r.Outcome + "#" + fmt.Sprint(c.Cost))
+			rec.Distinct(sc.Name + tagS + "#" + r.Outcome + "#" + fmt.Sprint(c.Cost))
 		}
 		func() {
 			defer func() {
@@ -609,7 +631,7 @@ func TestVerifC08(t *testing.T) {
 		rec.Count("concurrent.executions", ex.Stats.Executions)
 		if rec.ShardI == 0 {
 			rec.Count("concurrent.scenarios", 1)
-			rec.Sample(map[string]any{"scenario": sc.Name, "part": "schedules", "bound": bound})
+			rec.Sample(map[string]any{"scenario": sc.Name + tagS, "part": "schedules", "bound": bound})
 		}
 		if ex.Stats.Capped {
 			rec.NotExhaustive("budget reached inside " + sc.Name)
